@@ -454,7 +454,7 @@ def bounded_dynamic(run):
 
 # ------------------------------------------------------------------------------------------ copies are deep
 # ints / the stateless connector service / the random stream (Config.copy documents that the generator is shared on purpose)
-SHARED_BY_DESIGN = {"self.d", "self._d", "self._connector", "self.connector", "self.rng"}
+SHARED_BY_DESIGN = {"self.d", "self._d", "self._connector", "self.connector", "self.rng", "self._python_rng"}
 
 
 def _fresh_expr(e):
